@@ -322,7 +322,7 @@ def c_shared(nm, ns, idw=IDW):
         no_rsp = z3.And(*[z3.Not(b(h.v(getattr(s, RSP[dirn]).valid))) for s in slaves])
         h.respond(f"resp.{dirn}.serve{i}", z3.And(b(h.v(getattr(masters[i], REQ[dirn]).valid)), others_idle, ghosts[dirn][0] == K(0, CW), no_rsp), eqc(h.v(rr.grant), i), 2)
     h.cover("cover.b", fire(h, masters[-1].b), depth=5); h.cover("cover.r-last", rsp_fire(h, masters[-1], "rd"), depth=5)
-    h.cover("cover.both-dirs", z3.And(fire(h, masters[0].w), fire(h, masters[-1].r), h.v(d.arbiter.rr_write.grant) != h.v(d.arbiter.rr_read.grant)), depth=5)
+    h.cover("cover.both-dirs", z3.And(fire(h, masters[0].w), fire(h, masters[-1].r), z3.BoolVal(True) if nm == 1 else h.v(d.arbiter.rr_write.grant) != h.v(d.arbiter.rr_read.grant)), depth=5)
     h.bmc_depth = 6
     h.functions = ["litex.soc.interconnect.axi.axi_full.AXIInterconnectShared.__init__", "litex.soc.interconnect.axi.axi_full.AXIArbiter.__init__",
                    "litex.soc.interconnect.axi.axi_full.AXIDecoder.__init__", "litex.soc.interconnect.axi.axi_full.get_check_parameters"]
